@@ -23,6 +23,10 @@ K6 = [
      "what": "PATTERN, PATTERN_FLIPPED, YES/NO, quaternary_to_flips (4 cases), FLIP_SHIFT equal the reference; reverse_pattern gives the inverse permutation"},
     {"file": "k6_hilbert.rs", "harness": "k6_shift_digits_table", "kind": "full-domain",
      "what": "real shift_digits equals the reference release's truth table for all 4x4 digit pairs x 4 flip states x invert_j x both patterns (complete)"},
+    {"file": "k6_hilbert.rs", "harness": "k6_ij_to_quaternary_equiv", "kind": "full-domain",
+     "what": "real ij_to_quaternary (which of the four sub-cells a lattice point falls in) == frozen copy of the reference release for every f64 pair with |x|,|y| <= 1e12 (lattice coordinates are < 2^30) and flip state"},
+    {"file": "k6_hilbert.rs", "harness": "k6_ij_kj_equiv", "kind": "full-domain",
+     "what": "real ij_to_kj / kj_to_ij == frozen copies of the reference release, bit for bit, for every f64 pair with |x|,|y| <= 1e12"},
     {"file": "k6_hilbert.rs", "harness": "k6_quaternary_to_kj", "kind": "closed-term",
      "what": "quaternary_to_kj(n, flips) equals the reference for all 4 digits x 4 flip states"},
 ] + [
